@@ -739,6 +739,161 @@ def d39():
             return result
 """)])
 
+@fix('D40', "fix: comparing two matrices yields a matrix of 0/1 like comparing two vectors\n\nThe comparison branch of ResolveBinaryExpressionType only knew vectors, so two\nmatrices were typed as a scalar int, while v_BinaryExpression lowers a matrix\ncomparison row by row into a matrix: `a > b` on float3x3 passed the front end\nand died in lowering with AttributeError ('IntegerType' has no 'RowType').")
+def d40():
+    patch('nsl/types.py', [(
+"""                VectorType(Integer(), left.GetComponentCount()),
+                [baseType, baseType],
+            )
+        return ExpressionType(Integer(), [baseType, baseType])""",
+"""                VectorType(Integer(), left.GetComponentCount()),
+                [baseType, baseType],
+            )
+        if left.IsMatrix() and right.IsMatrix():
+            assert isinstance(left, MatrixType)
+            return ExpressionType(
+                left.WithComponentType(Integer()), [baseType, baseType]
+            )
+        return ExpressionType(Integer(), [baseType, baseType])""")])
+
+@fix('D41', "fix: assigning through a swizzle of a scalar merges like a one-component vector\n\nThe store path of a swizzle read `value.Type.Size`, which scalar types do not\nhave, so `float a; a.x = s;` passed the front end and died in lowering with\nAttributeError.")
+def d41():
+    patch('nsl/passes/LowerToIR.py', [(
+"""                leftComponentCount = value.Type.Size
+""",
+"""                leftComponentCount = (
+                    value.Type.Size if value.Type.IsVector() else 1
+                )
+""")])
+
+@fix('D42', "fix: constructor arguments must fill the constructed type\n\nNothing checked the arguments of float3(...) / float4x4(...): too few or too\nmany components, or scalars where a matrix needs rows, passed the front end and\nfailed in the VM (AssertionError in CONSTRUCT_PRIMITIVE, IndexError on a\ncomponent the type promises).")
+def d42():
+    patch('nsl/passes/ComputeTypes.py', [(
+"""            elif isinstance(expr, ast.AffixExpression):
+                expr.SetType(expr.children[0].GetType())
+""",
+"""            elif isinstance(expr, ast.AffixExpression):
+                expr.SetType(expr.children[0].GetType())
+            elif isinstance(expr, ast.ConstructPrimitiveExpression):
+                self._CheckConstructorArguments(expr)
+"""), (
+"""    def v_VariableDeclaration(self, decl, ctx):""",
+"""    def _CheckConstructorArguments(self, expr):
+        targetType = expr.GetType()
+        argumentTypes = [a.GetType() for a in expr.GetArguments()]
+        if targetType.IsMatrix():
+            # A matrix is built from its rows
+            valid = len(argumentTypes) == targetType.GetRowCount() and all(
+                t.IsPrimitive()
+                and t.IsVector()
+                and t.GetComponentCount() == targetType.GetColumnCount()
+                for t in argumentTypes
+            )
+        elif targetType.IsVector():
+            # A vector is built from scalars and vectors, flattened in order
+            valid = all(
+                t.IsPrimitive() and (t.IsScalar() or t.IsVector())
+                for t in argumentTypes
+            ) and targetType.GetComponentCount() == sum(
+                t.GetComponentCount() if t.IsVector() else 1
+                for t in argumentTypes
+            )
+        else:
+            # A scalar is converted from one scalar
+            valid = len(argumentTypes) == 1 and (
+                argumentTypes[0].IsPrimitive() and argumentTypes[0].IsScalar()
+            )
+
+        if not valid:
+            Errors.ERROR_INCOMPATIBLE_TYPES.Raise(
+                targetType, ", ".join(str(t) for t in argumentTypes)
+            )
+
+    def v_VariableDeclaration(self, decl, ctx):""")])
+
+@fix('D43', "fix: an initialiser must be compatible with the declared type\n\n`float3 v = 1.0;` or `int x = m;` (a matrix) passed the front end because a\ndeclaration's initialiser was typed but never compared with the declared type;\nthe first use of the variable then failed in the VM with TypeError.")
+def d43():
+    patch('nsl/passes/ComputeTypes.py', [(
+"""        scope.RegisterVariable(decl.GetName(), decl.ResolveType(scope))
+        if decl.HasInitializerExpression():
+            self._ProcessExpression(decl.GetInitializerExpression(), scope)
+""",
+"""        declaredType = decl.ResolveType(scope)
+        scope.RegisterVariable(decl.GetName(), declaredType)
+        if decl.HasInitializerExpression():
+            initializerType = self._ProcessExpression(
+                decl.GetInitializerExpression(), scope
+            )
+            if not types.IsCompatible(declaredType, initializerType):
+                Errors.ERROR_INCOMPATIBLE_TYPES.Raise(
+                    declaredType, initializerType
+                )
+""")])
+
+# D44 (return type compatibility) was tried and dropped: tests/test_vm.py::testAssignToVectorCopy itself returns a float from a
+# function declared float4, so the unedited suite cannot pass with the check; recorded as known finding KF-02 instead.
+
+@fix('D45', "fix: the VM constructs scalars\n\n`float(a)` is accepted and lowered to CONSTRUCT_PRIMITIVE of a scalar type, for\nwhich the VM had no case and raised an internal compiler error; the (already\nconverted) argument is the value.")
+def d45():
+    patch('nsl/VM.py', [(
+"""                            var.append(value)
+                        localScope[ref] = var
+                    else:
+                        Errors.ERROR_INTERNAL_COMPILER_ERROR.Raise(""",
+"""                            var.append(value)
+                        localScope[ref] = var
+                    elif (
+                        instruction.Type.IsScalar()
+                        and len(instruction.Values) == 1
+                    ):
+                        localScope[ref] = localScope[
+                            instruction.Values[0].Reference
+                        ]
+                    else:
+                        Errors.ERROR_INTERNAL_COMPILER_ERROR.Raise(""")])
+
+@fix('D46', "fix: a while statement's condition is visited before its body\n\nWhileStatement._Traverse visited the body first, so every pass saw an unbraced\ndeclaration in the body before the condition: `while (x < 3) int x;` was typed\nwith x already declared, passed the front end and died in lowering with\nKeyError.")
+def d46():
+    patch('nsl/ast/__init__.py', [(
+"""        self.__body = function(self.__body)
+        self.__condition = function(self.__condition)
+
+    def GetCondition(self):
+        return self.__condition
+
+    def GetBody(self):
+        return self.__body
+
+
+class Annotation(Node):""",
+"""        self.__condition = function(self.__condition)
+        self.__body = function(self.__body)
+
+    def GetCondition(self):
+        return self.__condition
+
+    def GetBody(self):
+        return self.__body
+
+
+class Annotation(Node):""")])
+
+@fix('D47', "fix: the value of an assignment is the assigned value\n\nv_AssignmentExpression returned whatever lowering the left-hand side produced.\nFor an element of a vector or matrix and for a swizzle that is the store of the\nwhole updated parent, so `c = v.y = p;` or `c = m[1][2] = p;` gave c the\nvector/matrix and `c + v.y` failed in the VM with TypeError.")
+def d47():
+    patch('nsl/passes/LowerToIR.py', [(
+"""        ctx.BeginAssignment(value)
+        destination = self.v_Visit(expr.GetLeft(), ctx)
+        ctx.EndAssignment()
+
+        return destination
+""",
+"""        ctx.BeginAssignment(value)
+        self.v_Visit(expr.GetLeft(), ctx)
+        ctx.EndAssignment()
+
+        return value
+""")])
+
 @fix('D21', "fix: %, && and || on vectors and matrices are lowered and executed component-wise\n\nTyping accepts `a % b`, `a && b`, `a || b` for two vectors or two matrices of the\nsame shape, but FromOperation had no vector opcode for them (VECTOR_MOD was declared\nbut unused), so lowering died with KeyError.")
 def d21():
     patch('nsl/LinearIR.py', [
